@@ -301,3 +301,65 @@ fn c08_with_fills_every_cell() {
     assert!(cell(&h, i) != 0 && cell(&h, i) != cell(&h, j));
     kani::cover!(i == 1037 && j == 0, "reachable");
 }
+
+// ---- bounded stand-in (native, exhaustive over all one- and two-piece placements): the placement formula -----------
+// The symbolic proof of "hash == XOR over pieces of K[square][piece] ^ components" for arbitrary boards is out of
+// CBMC's reach (symbolic index into the 64x16 key table).  This runs the REAL hash natively, for key tables drawn by the
+// real `with` from three seeds, over every (piece, square) and every pair of placements on different squares, plus
+// the initial position, against the formula.
+
+#[cfg(test)]
+mod native {
+    use super::*;
+    use rand::SeedableRng;
+
+    fn state_of(p: &[u64; 16], turn: Color, rights: u8, ep: Option<Square>) -> State {
+        State::new(board_from(p), turn, rights_from(rights), ep, Clock { halfmove_clock: 17, fullmove_number: 42 })
+    }
+
+    #[test]
+    fn c08_native_placement_exhaustive() {
+        let mut count = 0u64;
+        for seed in [0u64, 1, 0xdead_beef] {
+            let h = ZobristHasher::with(&mut rand_chacha::ChaCha8Rng::seed_from_u64(seed));
+            let pieces: [usize; 12] = [1, 2, 3, 4, 5, 6, 9, 10, 11, 12, 13, 14];
+            for (turn, rights, ep) in [(Color::White, 0u8, None), (Color::Black, 15u8, Some(sq(20))), (Color::White, 6u8, Some(sq(43)))] {
+                let comp = h.hash(&state_of(&[0u64; 16], turn, rights, ep));
+                assert_eq!(comp, spec_components(&h, turn, rights, ep));
+                for a in pieces {
+                    for s in 0..64u8 {
+                        let mut p = [0u64; 16];
+                        p[a] |= bit(s);
+                        let k1 = h.piece_hash[sq(s)][PieceIndex(a as u8)];
+                        assert_eq!(h.hash(&state_of(&p, turn, rights, ep)), comp ^ k1, "one piece {} on {}", a, s);
+                        count += 1;
+                        for b in pieces {
+                            for t in 0..64u8 {
+                                if t == s {
+                                    continue;
+                                }
+                                let mut q = p;
+                                q[b] |= bit(t);
+                                let k2 = h.piece_hash[sq(t)][PieceIndex(b as u8)];
+                                assert_eq!(h.hash(&state_of(&q, turn, rights, ep)), comp ^ k1 ^ k2);
+                                count += 1;
+                            }
+                        }
+                    }
+                }
+                // a full board: the initial position
+                let mut expect = comp;
+                for a in pieces {
+                    for s in 0..64u8 {
+                        if INITIAL[a] & bit(s) != 0 {
+                            expect ^= h.piece_hash[sq(s)][PieceIndex(a as u8)];
+                        }
+                    }
+                }
+                assert_eq!(h.hash(&state_of(&INITIAL, turn, rights, ep)), expect);
+                count += 1;
+            }
+        }
+        println!("NATIVE-COUNT {}", count);
+    }
+}
